@@ -52,7 +52,10 @@ def thaw(case):
     return (tuple(tuple(r) for r in case[0]),)
 
 
-def ref_rules(case):
+NT_SWAPPED = ["A", "S"] + NT[2:]      # the start variable is called A, another non-terminal is called S
+
+
+def ref_rules(case, NT=NT):
     out = []
     for r in case[0]:
         if r[0] == 0:
